@@ -1,6 +1,7 @@
 //! jharness — runs the real jammdb on inputs shared with the Lean model driver.
 //! Subcommands:
 //!   hist <in.hist> <out.trace>     execute histories, append each call's outcome
+mod conc;
 mod hist;
 mod images;
 mod util;
@@ -16,6 +17,7 @@ fn main() {
     match args[1].as_str() {
         "hist" => hist::main(&args[2..]),
         "images" => images::main(&args[2..]),
+        "conc" => conc::main(&args[2..]),
         other => {
             eprintln!("unknown subcommand {}", other);
             std::process::exit(2);
